@@ -12,7 +12,7 @@ TECH = ('explicit TLA+ specification model-checked with TLC; TLC-emitted '
 # property id -> (design_ref, level text, level note, technique suffix)
 CLAIMED = {
     'C18': ('5/C18, 3.8',
-            "spec/BpchLayout.tla is the bpch layout grammar (general header; per time block and tracer a 36-byte model header, a 168-byte data-block header with category, tracer id, unit, tau0/tau1, dimensions, nested-grid offsets and skip, and the data record with the tracer's own layer count) plus the header-walk automaton of the memory-mapped reader; BpchLayout_MC checks header sizes, skip = data + 8, tiling and that the walk recovers the tracer list on all configurations (1-3 tracers from two categories with different layer counts in any order, grids up to 3x2, nested offsets, 1-3 time blocks) and emits them. Each is serialised by the typed-field encoder with generated tracerinfo/diaginfo tables (category offsets 0/100, scales 2, 1, 1/2) and taken through bpch1(noscale) -> ncf2bpch (the 32-bit words of the output must equal the original), bpch1 with scaling (raw x table scale, unit from the table), write/read of the scaled file, and bpch2; Bpch_Trace validates every step.",
+            "spec/BpchLayout.tla is the bpch layout grammar (general header; per time block and tracer a 36-byte model header, a 168-byte data-block header with category, tracer id, unit, tau0/tau1, dimensions, nested-grid offsets and skip, and the data record with the tracer's own layer count) plus the header-walk automaton of the memory-mapped reader; BpchLayout_MC checks header sizes, skip = data + 8, tiling and that the walk recovers the tracer list on all configurations (1-3 tracers from two categories with different layer counts in any order, grids up to 3x2, nested offsets, 1-3 time blocks) and emits them. Each is serialised by the typed-field encoder with generated tracerinfo/diaginfo tables (category offsets 0/100, scales 2, 1, 1/2) and taken through bpch1(noscale) -> ncf2bpch (the 32-bit words of the output must equal the original), bpch1 with scaling (raw x table scale, unit from the table), write/read of the scaled file, and bpch2; Bpch_Trace validates every step, including the rows of time_bounds.",
             'Trusted: the typed-field serialiser, the generated fixed-width tables. Table scales are powers of two and data integer tokens (exact). Truncated bpch files are scanned under C14; vertical-grid metadata (hyai/hybi) is not compared.',
             'layout grammar + read/rewrite/scale traces validated'),
     'C14': ('5/C14, 3.7',
@@ -28,11 +28,11 @@ CLAIMED = {
             'Trusted: the typed-field serialiser and the length-marker record walker in harness/camx.py (they know field types, not formats), TLC. Scope: nine formats in one layout grammar - gridded uamiv (AVERAGE/EMISSIONS, 1-3 species with names of 1-10 characters, grids up to 3x2x2, 1-3 hourly steps, seven start instants incl. year ends 1999/2011/2069, leap days, the 1970 pivot, both end-of-day spellings), one3d, humidity, vertical diffusivity, temperature, height/pressure (grids up to 3x2x2 / 1x2x3, 1-3 steps, three starts), wind (two- and three-word time records, grids of at least 4 cells, 1-3 and 7 steps), cloud/rain (5 and 3 variables) and lateral boundary (1-3 species, grids of at least 2x2). Land use is not modelled (DESIGN.md I.2); data are integer tokens, arbitrary float payloads only through the byte-identity clause. Known findings C09_K1 (sequential uamiv/temperature readers and day/century roll-over) and C09_K2 (sequential met readers and single-step files) are reported as KNOWN-FINDING.',
             'layout grammar as codec, both directions validated'),
     'C08': ('5/C08, 3.7',
-            'For every configuration emitted by CamxLayout_MC a CAMx-convention file is built from the configuration alone (with and without ETFLAG), written with pncgen(format=uamiv), read back with the memory-mapped reader and written again; Camx_Trace requires the re-read content (dimensions, species order, token data, begin/end time flags as instants) to equal the configuration and the second output to be byte-identical.',
+            'For every configuration emitted by CamxLayout_MC a CAMx-convention file is built from the configuration alone (with and without ETFLAG), written with pncgen(format=uamiv), read back with the memory-mapped reader and written again; Camx_Trace requires the re-read content (dimensions, species order, token data, begin/end time flags as instants, and the grid header of the self-describing formats: origin, cell sizes with XCELL # YCELL, projection parameters, time zone) to equal the configuration and the second output to be byte-identical.',
             'Trusted: the typed-field serialiser and the length-marker record walker in harness/camx.py (they know field types, not formats), TLC. Scope: nine formats in one layout grammar - gridded uamiv (AVERAGE/EMISSIONS, 1-3 species with names of 1-10 characters, grids up to 3x2x2, 1-3 hourly steps, seven start instants incl. year ends 1999/2011/2069, leap days, the 1970 pivot, both end-of-day spellings), one3d, humidity, vertical diffusivity, temperature, height/pressure (grids up to 3x2x2 / 1x2x3, 1-3 steps, three starts), wind (two- and three-word time records, grids of at least 4 cells, 1-3 and 7 steps), cloud/rain (5 and 3 variables) and lateral boundary (1-3 species, grids of at least 2x2). Land use is not modelled (DESIGN.md I.2); data are integer tokens, arbitrary float payloads only through the byte-identity clause.',
             'layout model + write/read/rewrite traces validated'),
     'C07': ('5/C07, 3.6',
-            'spec/NcStore.tla models the fill-value mechanism (disk fill precedence, data fill, netCDF4 auto-masking) - NcStore_MC checks that the mask survives for all 27 combinations of missing_value/fill_value/_FillValue under the specified data fill and exhibits the losing combination under the attribute-first deviation - and defines StoreDiff, the field-by-field meaning of "reproduces" (dimension names/order/lengths/unlimited flags, global attributes, variable names/order/dtype/dimension tuples, masks, bit-identical unmasked values, variable attributes modulo _FillValue on masked variables). Generated files (11 dtypes incl. char, unsigned and 64-bit; unmasked/partly/fully masked; every fill-attribute combination; scalar/1-D/2-D/3-D; unlimited none/first/not first; str/int/float/array attributes; float payloads with -0.0 and denormals) are saved in all four flavours with and without compression, closed, reopened with format named and by auto-detection (one process per case) and validated by NcStore_Trace; a save may raise only when a dtype is not representable in the flavour.',
+            'spec/NcStore.tla models the fill-value mechanism (disk fill precedence, data fill, netCDF4 auto-masking) - NcStore_MC checks that the mask survives for all 27 combinations of missing_value/fill_value/_FillValue under the specified data fill and exhibits the losing combination under the attribute-first deviation - and defines StoreDiff, the field-by-field meaning of "reproduces" (dimension names/order/lengths/unlimited flags, global attributes, variable names/order/dtype/dimension tuples, masks, bit-identical unmasked values, variable attributes modulo _FillValue on masked variables). Generated files (11 dtypes incl. char, unsigned and 64-bit; unmasked/partly/fully masked; every fill-attribute combination, with 0 as a fill value in a third of the masked cases; scalar/1-D/2-D/3-D; unlimited none/first/not first; str/int/float/array attributes; float payloads with -0.0 and denormals) are saved in all four flavours with and without compression, closed, reopened with format named and by auto-detection (one process per case) and validated by NcStore_Trace; a save may raise only when a dtype is not representable in the flavour.',
             'Trusted: the exact (hex) projection, netCDF4/HDF5 themselves. Excluded by construction: unmasked values equal to a fill value, unlimited dimensions used by no variable (netCDF stores no length for them), bool attributes (not a netCDF type). HDF5 internals / compression ratios out of reach.',
             'fill-mechanism model checking + save/reopen traces validated'),
     'C19': ('5/C19, 3.8',
@@ -41,7 +41,7 @@ CLAIMED = {
             'structure enumeration + write/read traces validated'),
     'C20': ('5/C20, 3.8',
             'spec/ArlPack.tla transcribes the packing definition in exact integers (exponent from the largest neighbour difference, byte = trunc(diff/step + 127.5) saturating, running reconstruction); ArlPack_MC checks NoWrap, FirstExact and that the one-step bound fails only at cut-off bytes (and, with the bound as invariant, exhibits the witness of known finding C20_K1) on every field of a lattice finer than the quantisation step with differences around 2**9, and emits the fields; pack2d/unpack are run on each field and on random larger fields (other exponents, constants, up to 4x6) scaled by 2**s, s in {0,-20,20,-100,60}; ArlPack_Trace requires bytes, exponent, VAR1, checksum (mod 255) and unpack(pack(x)) to equal the model and evaluates the bound.',
-            'Trusted: integer fields times 2**s are exact in float32, so code and model must agree to the byte. Not decided: arbitrary float32 fields (rounding of LOG near powers of two, accumulated error on long rows), exponents below 7, and the packed-bit FILE layout (index record, variable definitions, arlpackedbit reader / writearlpackedbit) - second sentence of the property.',
+            'Trusted: integer fields times 2**s are exact in float32, so code and model must agree to the byte. Not decided: arbitrary float32 fields (rounding of LOG near powers of two, accumulated error on long rows), exponents below 7. Files (second sentence): spec/ArlLayout.tla is the record grammar (index record with grid and variable definitions incl. checksums, one labelled record per variable and level, bytes from ArlPack); ArlLayout_MC checks record sizes, counts and the packing invariants on 32 (quick) / 96 configurations (1-2 surface and layer variables, 2 or 4 levels, 1-2 times 3 or 12 h apart incl. 1999->2000, grids of 300/323 cells) and emits them; they are serialised by a fixed-width text encoder and read with arlpackedbit; Arl_Trace requires the variable lists, level list, times and every unpacked field (= running reconstruction of the packing) to equal the model. The library writer is not exercised (it raises for every input on this tree, DESIGN.md I.4), grids below the reader window are excluded (ReaderWindowFits).',
             'field enumeration + pack/unpack traces validated'),
     'C17': ('5/C17, 3.9',
             'spec/Interp.tla defines the exact rational weights of piecewise-linear interpolation (clamped when not extrapolating) and the layer-overlap fractions of conservative regridding; Interp_MC checks on every small grid pair (source length 2-3 quick / 2-4 thorough, both directions, targets inside/outside, shared or sub-range sigma edges) non-negativity, partition of unity, linear exactness, identity, rows-sum-to-one, thickness matching, column conservation and constant preservation, and emits the pairs; getinterpweights, sigma2coeff, interpDimension (along the middle axis of a 3-D variable) and interpSigma (linear, conserve) are run on them (plus longer random grids and single-level sources) and Interp_Trace requires rational equality with the model.',
@@ -84,7 +84,7 @@ CLAIMED = {
             'Trusted: TLC/SANY, the projection (harness/project.py: integers, rationals with denominator <= 100, hex otherwise), the argument conversion in harness/core_driver.py. Values are exact rationals; cells whose exact value cannot be identified from the float (denominator > 100, float32 magnitude > 2000, float32 variance, 32-bit overflow guards Dec_*) are not decided. Plotting, projections (pyproj missing) and xarray export are out of reach.',
             'program traces validated against PncCore'),
     'C05': ('5/C05, 3.6',
-            'Part 1 (heap): in recorded programs with queries (repr, dump, getTimes, val2idx, time2idx, date2num, save) and a write into every variable of each new file, PncCore_Trace.tla requires the projection of every other live object to be unchanged after every call. Part 2 (handles): TLC checks OthersStayValid, NoSharedHandle and OnlyOwnerReleases on spec/NcHandles.tla over every open/close/drop/finalise schedule of 3 objects (6 steps quick, 7 thorough) with id recycling; emitted schedules are replayed on real disk files through netcdf(), ioapi(), pncopen() and save() in one forked process each and the logged ids, finalisations (weak references) and reads are validated by spec/NcHandles_Trace.tla.',
+            'Part 1 (heap): in recorded programs over templates T1-T6 (T6 holds NaN/inf) with queries (repr, dump, getTimes, val2idx, time2idx, date2num, save), mask(invalid=True) steps and a write into every variable of each new file, PncCore_Trace.tla requires the projection of every other live object to be unchanged after every call. Part 2 (handles): TLC checks OthersStayValid, NoSharedHandle and OnlyOwnerReleases on spec/NcHandles.tla over every open/close/drop/finalise schedule of 3 objects (6 steps quick, 7 thorough) with id recycling; emitted schedules are replayed on real disk files through netcdf(), ioapi(), pncopen() and save() in one forked process each and the logged ids, finalisations (weak references) and reads are validated by spec/NcHandles_Trace.tla.',
             'Trusted: TLC, weakref observation of finalisation, the read probe. Partial collections are covered in the model only.',
             'schedule enumeration + trace validation'),
     'C15': ('5/C15, 3.5',
